@@ -1600,9 +1600,7 @@ theorem C17_events_loose_same_recipe_modes_off {α : Type} [Arith α] (ws : Char
     NOT covered: a comment directly in front of the unit of an ADVANCED_UNITS quantity written without
     `%` (`{1 [- c -]kg}`) — there the real parser changes its reading (finding O5, repaired on branch
     w5advfix); `QtyFiller` only inserts into units written with `%`.
-    MISSING for the recipe-level clause: the step loop over a whole step that contains such a
-    component (the events of all other segments are unchanged by `C17_block_parser_offset_blind`
-    only when the token lists have equal length), see notes/audit-C17.md. -/
+    The recipe level (step loop, block, document, analysis) is `C17_filler_in_component_bodies_same_recipe`. -/
 theorem C17_ingredient_filler_in_body {α : Type} [Arith α] (cF c : AComp) (hF : CompFiller cF c) (p' p : CPad) (s' s : BP α)
     (hcs : s'.cs = s.cs) (hext : s'.ext = s.ext) (hsp : s.cs.uws ' ' = true)
     (hwf : c.wf s.cs s.ext = true) (hp' : p'.ok s.cs = true) (hp : p.ok s.cs = true)
@@ -1959,6 +1957,28 @@ example : SameRecipe (α := Rat) (fun c => c = ' ')
     (by
       have : (parseFrontmatter C17_toyEnv.cs (render ([] ++ docSpecF C17_exDocCompF))).isNone = true := by decide
       simpa using this)
+
+/-! a trailing comment on a LAST line WITHOUT line feed, recipe level: the grammar of the insertion
+    theorem allows an empty last separator (`tailOK []`), so `C17_insertion_same_recipe` covers
+    `Mix well` against `Mix well -- c` (no line feed at the end of either source) -/
+def C17_exDocNoLF : List (DocItem × List Tok) :=
+  [(.step [.text [tk .word "Mix".toList, tk .ws [' '], tk .word "well".toList]], [])]
+def C17_exDocNoLFComment : List (DocItem × List Tok) :=
+  [(.step [.text ([tk .word "Mix".toList, tk .ws [' '], tk .word "well".toList] ++
+      [tk .ws [' '], tk .lineComment "-- c".toList] ++ [])], [])]
+example : render ([] ++ docSpec C17_exDocNoLFComment) = "Mix well -- c".toList ∧
+    render ([] ++ docSpec C17_exDocNoLF) = "Mix well".toList := by decide
+example : SameRecipe (α := Rat) (fun c => c = ' ')
+    (parseRecipe C17_toyEnv (render ([] ++ docSpec C17_exDocNoLFComment)))
+    (parseRecipe C17_toyEnv (render ([] ++ docSpec C17_exDocNoLF))) :=
+  C17_insertion_same_recipe C17_toyEnv _ [] [] _ _
+    (C17_exDocWF _ (by decide) (by intro d hd; simp only [C17_exDocNoLFComment, List.mem_cons, List.not_mem_nil, or_false] at hd; subst hd; exact ⟨_, rfl⟩))
+    (C17_exDocWF _ (by decide) (by intro d hd; simp only [C17_exDocNoLF, List.mem_cons, List.not_mem_nil, or_false] at hd; subst hd; exact ⟨_, rfl⟩))
+    (C17_insertion_in_one_step _ [] [] _ _
+      (C17_trailing_is_insertion _ (by decide) [] [] _ [tk .ws [' '], tk .lineComment "-- c".toList] []
+        (by intro t ht; simp only [List.mem_cons, List.not_mem_nil, or_false] at ht; rcases ht with rfl | rfl <;> rfl)
+        (by intro t ht; simp only [List.mem_cons, List.not_mem_nil, or_false] at ht; rcases ht with rfl | rfl <;> decide)
+        (Or.inl rfl) (by intro s hs; cases hs)))
 -- ===== end w5c17body =====
 
 end Cook
